@@ -239,3 +239,19 @@ Proof.
   unfold check_coo_his_exception, check_oco_his_exception, check_cys_his_exception, check_cys_cys_exception.
   destruct (check_buried _ _); repeat split; reflexivity.
 Qed.
+
+(* ---------------- which exception function a pair of group types reaches (table re-extracted from energy.check_exceptions) ---------------- *)
+From V Require Import Inventory_gen.
+From Coq Require Import String.
+Open Scope string_scope.
+Definition lower_ascii (c : Ascii.ascii) : Ascii.ascii :=
+  let n := Ascii.nat_of_ascii c in if (Nat.leb 65 n && Nat.leb n 90)%bool then Ascii.ascii_of_nat (n + 32) else c.
+Fixpoint lower_s (s : string) : string := match s with EmptyString => EmptyString | String c r => String (lower_ascii c) (lower_s r) end.
+(* the callee is named after the two types (in either order) and the table is closed under swapping the types *)
+Definition dispatch_row_ok (r : string * string * string * bool) : bool :=
+  let '(a, b, callee, _) := r in
+  (String.eqb callee ("check_" ++ lower_s a ++ "_" ++ lower_s b ++ "_exception") || String.eqb callee ("check_" ++ lower_s b ++ "_" ++ lower_s a ++ "_exception"))%bool
+  && existsb (fun r' => let '(a', b', callee', _) := r' in (String.eqb a' b && String.eqb b' a && String.eqb callee' callee)%bool) exception_dispatch.
+Lemma dispatch_consistent : forallb dispatch_row_ok exception_dispatch = true /\ List.length exception_dispatch = 10%nat.
+Proof. split; vm_compute; reflexivity. Qed.
+Close Scope string_scope.
